@@ -1,4 +1,5 @@
 """C17 -- code generation is deterministic."""
+import re
 import glob, hashlib, os, shutil, tempfile
 import common as c
 import gen, gencheck, pbcheck, schemas, pbschemas
@@ -59,7 +60,8 @@ def run(rep, tier, seed, replay):
     mc = rt.cached_model_check("codegen-pipeline", "MCCodegenPipeline", "MCCodegenPipeline.cfg", tier, workers=4)
     # the defective variants of the design must be refuted by the model (else the model is vacuous)
     refuted = [rt.cached_model_refutation("codegen-pipeline-nested-hash", "MCCodegenPipeline", "MCCodegenPipelineHash.cfg", tier, "OutputIsFunctionOfInput"),
-               rt.cached_model_refutation("codegen-pipeline-file-hash", "MCCodegenPipeline", "MCCodegenPipelineFileHash.cfg", tier, "OutputIsFunctionOfInput")]
+               rt.cached_model_refutation("codegen-pipeline-file-hash", "MCCodegenPipeline", "MCCodegenPipelineFileHash.cfg", tier, "OutputIsFunctionOfInput"),
+               rt.cached_model_refutation("codegen-pipeline-item-hash", "MCCodegenPipeline", "MCCodegenPipelineItemHash.cfg", tier, "OutputIsFunctionOfInput")]
     # corpus: generated schemas, the repository's golden IDLs, and a .proto with several sibling nested messages / enums
     d = os.path.join(c.OUT, "corpus", f"c17-{tier}-{seed}")
     os.makedirs(d, exist_ok=True)
@@ -91,7 +93,8 @@ def run(rep, tier, seed, replay):
         kind, path, inc, mode, t = job
         td = tempfile.mkdtemp(prefix="c17-", dir=c.OUT)
         try:
-            u = gen.Unit("gen", path, kind=kind, split=(mode == "split"), include=inc)
+            # "unused": the builder's default ignore_unused(true): only what a service reaches is collected and emitted
+            u = gen.Unit("gen", path, kind=kind, split=(mode == "split"), ignore_unused=(mode == "unused"), include=inc)
             gen.run_builder(u, td, env={"RAYON_NUM_THREADS": str(t)})
             return (t, u.ok, u.status, tree_hash(td))
         finally:
@@ -99,14 +102,18 @@ def run(rep, tier, seed, replay):
 
     # independent builder processes, a few at a time (each is its own process with its own hash seeds and rayon pool)
     import concurrent.futures
-    jobs = [(kind, path, inc, mode, t) for kind, path, inc in idls for mode in ("single", "split") for t in threads]
+    def modes_of(path):
+        has_service = bool(re.search(r"^\s*service\s", open(path).read(), re.M))
+        return ("single", "split", "unused") if has_service else ("single", "split")
+
+    jobs = [(kind, path, inc, mode, t) for kind, path, inc in idls for mode in modes_of(path) for t in threads]
     with concurrent.futures.ThreadPoolExecutor(max_workers=6) as ex:
         results = list(ex.map(one, jobs))
     by = {}
     for job, r in zip(jobs, results):
         by.setdefault((job[0], job[1], job[3]), []).append(r)
     for kind, path, inc in idls:
-        for mode in ("single", "split"):
+        for mode in modes_of(path):
             hashes = by[(kind, path, mode)]
             runs += len(hashes)
             oks = {h[1] for h in hashes}
